@@ -26,6 +26,13 @@ ASSUMPTIONS = ["exon identity is (chromosome, start, end, strand) as in the stat
 
 def _scenario(draw, feedback=False):
     src = S.DrawSrc(draw)
+    if not feedback and src.bool(0.1):
+        # a gene whose reads form two separate clusters, with another gene's cluster between them
+        sc = S.gen_islands_locus(src, nested=src.bool(0.8))
+        sc["gtf"]["exon_ids"] = src.bool(0.4)
+        sc["opts"] = ["--data_type", src.choice(["nanopore", "pacbio_ccs"]), "--no_gzip", "--threads",
+                      str(src.choice([1, 1, 2]))]
+        return sc
     sc = S.gen_discovery(src, n_chroms=(1, 3), genes_per_chrom=(1, 2), novel_per_gene=(1, 3), reads_known=(0, 4),
                          reads_novel=(3, 6), intergenic_p=0.5, max_exons=5)
     fl = sc["gtf"]
@@ -183,7 +190,7 @@ def evaluate_feedback(case, ctx):
 
 @st.composite
 def feedback_scenarios(draw):
-    sc = _scenario(draw)
+    sc = _scenario(draw, feedback=True)
     src = S.DrawSrc(draw)
     # second-generation reads: further unannotated isoforms of the same genes + a new intergenic gene
     reads2 = []
